@@ -349,6 +349,7 @@ func (node *Node) Run(ctx context.Context) error {
 
 		node.outgoing.Open(100)
 		node.unconfTxChannel.Open(100)
+		node.txTracker.Start() // it is stopped at the end of every connection
 
 		// Queue version message to start handshake
 		version := buildVersionMsg(node.config.UserAgent, int32(node.blocks.LastHeight()))
